@@ -246,6 +246,14 @@ func (g *globAnalysis) findMutableGlobals() {
 				}
 			case *ssa.MapUpdate:
 				mark(x.Map, "map entry written")
+			case *ssa.Send:
+				mark(x.Chan, "a value is sent on it (a package-level channel is a queue that outlives the call: a free list, a pool)")
+			case *ssa.Select:
+				for _, st := range x.States {
+					if st.Dir == types.SendOnly {
+						mark(st.Chan, "a value is sent on it (a package-level channel is a queue that outlives the call: a free list, a pool)")
+					}
+				}
 			case ssa.CallInstruction:
 				com := x.Common()
 				args := com.Args
